@@ -517,8 +517,8 @@ func ruleENC(c *Ctx) {
 		}
 	}
 	// the size test may live in a predicate method of the encoder: `func (e) full() bool { return e.wb.Len() >= e.size }`
-	var sizePred *ssa.Call   // the call of that predicate in Encode
-	var sizePredCmp Cmp      // its comparison, in the predicate's own values
+	var sizePred *ssa.Call // the call of that predicate in Encode
+	var sizePredCmp Cmp    // its comparison, in the predicate's own values
 	var sizePredLen *ssa.Call
 	if lenCall == nil {
 		for _, cs := range callsIn(enc) {
